@@ -156,11 +156,12 @@ static void exhaustive(int L) {
 static unsigned char *MB; static size_t MBN, MBCAP;
 static void mb_set(const void *p, size_t n) { if (n + 20000 > MBCAP) { MBCAP = n + 40000; MB = vf_xrealloc(MB, MBCAP); } memcpy(MB, p, n); MBN = n; }
 static void mb_insert(size_t at, const void *p, size_t n) { if (MBN + n + 8 > MBCAP) { MBCAP = MBN + n + 20000; MB = vf_xrealloc(MB, MBCAP); } memmove(MB + at + n, MB + at, MBN - at); memcpy(MB + at, p, n); MBN += n; }
+static const char *CUR_BN;      /* base name of the seed document being mutated: a file that exists next to the mutated copy */
 static void mutate(int fn) {
     int nm = 1 + (int)rng_below(&R, 3);
     for (int m = 0; m < nm; m++) {
         size_t at = MBN ? rng_below(&R, (uint32_t)MBN + 1) : 0;
-        switch (rng_below(&R, 14)) {
+        switch (rng_below(&R, 15)) {
         case 0: MBN = at; break;                                                             /* truncate anywhere */
         case 1: if (MBN) { size_t a = rng_below(&R, (uint32_t)MBN), l = 1 + rng_below(&R, 20); if (a + l > MBN) l = MBN - a; unsigned char *cp = vf_xdup(MB + a, l); mb_insert(at > MBN ? MBN : at, cp, l); hm_free(cp); } break;   /* duplicate */
         case 2: if (MBN) { size_t a = rng_below(&R, (uint32_t)MBN), l = 1 + rng_below(&R, 10); if (a + l > MBN) l = MBN - a; memmove(MB + a, MB + a + l, MBN - a - l); MBN -= l; } break;   /* delete */
@@ -175,6 +176,11 @@ static void mutate(int fn) {
         case 10: if (MBN) MB[rng_below(&R, (uint32_t)MBN)] = 0; break;                         /* embedded NUL (file parsers) */
         case 11: { char inc[80]; snprintf(inc, sizeof inc, "\n@INCLUDE %s\n", (const char *[]){"/nonexistent/file", "", "                ", "missing.conf"}[rng_below(&R, 4)]); mb_insert(at > MBN ? MBN : at, inc, strlen(inc)); break; }
         case 12: { size_t l = 4090 + rng_below(&R, 12); char *x = hm_alloc(l + 16); memset(x, '/', l); memcpy(x, "\n@INCLUDE ", 10); x[l - 1] = '\n'; mb_insert(at > MBN ? MBN : at, x, l); hm_free(x); break; }   /* over-long include path */
+        case 13: if (CUR_BN) { /* include line naming an EXISTING file, padded with blanks to the neighbourhood of PATH_MAX (the blanks are trimmed before the file is opened) */
+                  size_t L = rng_chance(&R, 3, 4) ? 4078 + rng_below(&R, 24) : 3000 + rng_below(&R, 3000), bl = strlen(CUR_BN); if (L < bl + 2) L = bl + 2;
+                  size_t lead = rng_chance(&R, 1, 2) ? 0 : rng_below(&R, (uint32_t)(L - bl)); char *x = hm_alloc(L + 16); memcpy(x, "\n@INCLUDE ", 10); memset(x + 10, rng_chance(&R, 1, 4) ? '\t' : ' ', L); memcpy(x + 10 + lead, CUR_BN, bl); x[10 + L] = '\n';
+                  if (rng_chance(&R, 1, 2)) mb_insert(0, x + 1, 10 + L); else mb_insert(at > MBN ? MBN : at, x, 11 + L);
+                  hm_free(x); vf_count("long_include_lines_naming_an_existing_file", 1); } break;
         default: { static const char *T[] = {"%", "%x", "%zz", "%%", "+%2", "=", "==", "A", "AB", "ABC=", "=A==", "0", "abc", "g0"}; const char *q = T[rng_below(&R, 14)]; mb_insert(MBN, q, strlen(q)); break; }       /* hostile tails */
         }
     }
@@ -209,7 +215,9 @@ static void mutation_case(long caseno) {
         const char *sp = SEEDS[rng_below(&R, (uint32_t)NSEEDS)]; const char *bn = strrchr(sp, '/') + 1; bool apache = bn[0] == 'a';
         size_t n = 0; char *txt = qfile_load(sp, &n); if (!txt) return;
         mb_set(txt, n); free(txt);
+        CUR_BN = apache ? NULL : bn;
         if (!rng_chance(&R, 1, 8)) mutate(apache ? F_APACHE : F_INI_STR);
+        CUR_BN = NULL;
         vf_case_begin(caseno, "mutated %s document from %s (%zu bytes)", apache ? "Apache-style" : "INI", bn, MBN);
         vf_log("document: %s", vf_hex(MB, MBN > 200 ? 200 : MBN));
         if (apache) { load_case_options(sp); evaluate(F_APACHE, MB, MBN, NULL); CUR_OPTS = DEFOPTS; CUR_FLAGS = (int)rng_below(&R, 4); CUR_DEFCB = rng_chance(&R, 1, 2); }
